@@ -281,3 +281,33 @@ def sany(module):
     p = subprocess.run(cmd, cwd=SPEC_DIR, capture_output=True, text=True)
     ok = p.returncode == 0 and "Semantic errors" not in p.stdout and "error" not in p.stdout.lower().replace("errors:", "")
     return ok, p.stdout + p.stderr
+
+
+def tlaps_check(module, timeout=600):
+    """Run the TLA+ proof system (tlapm) on spec/proofs/<module>.tla in a scratch copy
+    (its cache stays out of /verif).  Returns dict(ok, obligations, proved, wall_s,
+    tail).  Never raises for an unproved obligation: the caller decides."""
+    import re
+    import shutil
+    import subprocess
+    import tempfile
+    import time
+    d = tempfile.mkdtemp(prefix="tlaps_")
+    t0 = time.time()
+    try:
+        shutil.copy(os.path.join(SPEC_DIR, "proofs", module + ".tla"), d)
+        try:
+            p = subprocess.run(["tlapm", module + ".tla"], cwd=d, capture_output=True, text=True, timeout=timeout)
+            out = p.stdout + p.stderr
+        except (OSError, subprocess.TimeoutExpired) as e:
+            return {"ok": False, "obligations": 0, "proved": 0, "wall_s": time.time() - t0, "tail": repr(e)[:300]}
+        m = re.search(r"All (\d+) obligations? proved", out)
+        if m:
+            n = int(m.group(1))
+            return {"ok": True, "obligations": n, "proved": n, "wall_s": time.time() - t0, "tail": ""}
+        m = re.search(r"(\d+)/(\d+) obligations failed", out)
+        failed, total = (int(m.group(1)), int(m.group(2))) if m else (0, 0)
+        return {"ok": False, "obligations": total, "proved": total - failed, "wall_s": time.time() - t0,
+                "tail": out[-600:]}
+    finally:
+        shutil.rmtree(d, ignore_errors=True)
